@@ -6,7 +6,7 @@ from lib import symx
 LEVEL = 'other'
 MANIFEST = {'category': 'other', 'engine': 'symx+sre2smt+z3',
  'technique': 'symbolic/exhaustive exploration of the real error-handling structure: parse_all with nondeterministically failing decoder and sink (symx choose); regular-language inclusion (z3) of everything the line regexes hand to int()/float(); exhaustive enumeration of all matcher / command texts up to 3 (quick) / 4 (thorough) symbols of the matcher alphabet; evaluation and printing of accepted matchers on hostile argument values',
- 'text': 'Partial by nature (totality over all byte strings is not solver-sized). Decided: (1) with the line decoder and the connection sink failing in every possible pattern (return / RuntimeError / any other exception) on <= 3 lines, nothing escapes parse.into_sink, every line is read and every opened connection is closed once; (2) for lines of ANY length that either regex matches, every text handed to int() or float() lies inside that builtin\'s accepted language (so decoding a matched line cannot raise ValueError); (3) every matcher of C05\'s expression family can be evaluated on, and printed next to, messages whose arguments take hostile values (inf, nan, huge and negative integers, empty and non-ASCII strings, missing types / names / incarnations, unresolved objects); (4) every string of <= 3/4 symbols over the matcher alphabet (incl. non-ASCII and ESC) is either parsed or rejected with RuntimeError by matcher.parse, and given as any command to Controller.process_command produces output or an error line and raises nothing. Log side: the real argument splitter (argument_list_strs / end_of_str) on ARBITRARY argument texts of <= 8 (11) symbolic characters terminates and loses no character (a path that does not end is reported and confirmed by a replay that does not end).',
+ 'text': 'Partial by nature (totality over all byte strings is not solver-sized). Decided: (1) with the line decoder and the connection sink failing in every possible pattern (return / RuntimeError / any other exception) on <= 3 lines, nothing escapes parse.into_sink, every line is read and every opened connection is closed once; (2) for lines of ANY length that either regex matches, every text handed to int() or float() lies inside that builtin\'s accepted language (so decoding a matched line cannot raise ValueError); (3) every matcher of C05\'s expression family can be evaluated on, and printed next to, messages whose arguments take hostile values (inf, nan, huge and negative integers, empty and non-ASCII strings, missing types / names / incarnations, unresolved objects); (4) every string of <= 3/4 symbols over the matcher alphabet (incl. non-ASCII and ESC) is either parsed or rejected with RuntimeError by matcher.parse, and given as any command to Controller.process_command produces output or an error line and raises nothing. Log side: the real argument splitter (argument_list_strs / end_of_str) on ARBITRARY argument texts of <= 8 (11) symbolic characters terminates and loses no character (a path that does not end is reported and confirmed by a replay that does not end). Sequences of <= 3 (4) hostile but well-matched message lines (enormous time stamps and ids, ill-typed special messages, duplicates) through the real line loop: consumed to the end, connections closed, commands still answer.',
  'note': 'Outside the claim: byte decoding of the input (open()/stdin/pipe text layer is C code; an undecodable byte does escape readline() - recorded as an observation in DESIGN.md), texts longer than the bound, KeyboardInterrupt/EOF at the prompt.'}
 EXPLANATION = MANIFEST['text']
 ASSUMPTIONS = ['readline() itself does not raise (text layer outside the claim)', 'int()/float() accept exactly the documented literal syntax incl. Unicode digits']
